@@ -312,6 +312,7 @@ def run(tier, seed):
     os.chmod(work, 0o777)
     fired_kinds = {}
     selfcheck = {"scenarios_run_twice": 0, "differing": 0}
+    redirected = [0]
     outcomes = {}
     trivial = 0
     scen_total = 0
@@ -358,6 +359,13 @@ def run(tier, seed):
                 outcomes[obs.get("kind")] = outcomes.get(obs.get("kind"), 0) + 1
                 max_steps_ratio = max(max_steps_ratio, obs.get("steps_ratio", 0))
                 v = classify(obs, fired, ref)
+                if v and v["class"] == "bindings-changed-by-fault" and fired and \
+                        all(not f[2].startswith(root) for f in fired):
+                    # A failed probe of a *system* header redirects clang's include search
+                    # (#include_next falls through to the next directory): a legal, different
+                    # preprocessing result, not bindgen changing bindings behind a fault.
+                    redirected[0] += 1
+                    v = None
                 if v:
                     ops = sorted({f"{f[1]}:{os.path.basename(f[2])}" for f in fired})
                     sig = dict(v, fault=ops[0] if ops else "none", tier="plan")
@@ -505,6 +513,7 @@ def run(tier, seed):
         "exhaustive": False,
         "fault_kinds_fired": dict(sorted(fired_kinds.items())),
         "scenarios_where_no_fault_fired": trivial,
+        "system_header_faults_that_redirected_include_search": redirected[0],
         "outcomes": outcomes,
         "max_step_budget_ratio_permille": max_steps_ratio,
         "configuration_sweep": config_stats,
